@@ -33,6 +33,15 @@ use ruma_common::{
 };
 use serde_json::Value;
 
+fn conds(tag: usize) -> Vec<ruma_common::push::PushCondition> {
+    use ruma_common::push::PushCondition;
+    match tag % 3 {
+        0 => vec![],
+        1 => vec![PushCondition::EventMatch { key: "type".into(), pattern: format!("m.t{tag}") }],
+        _ => vec![PushCondition::ContainsDisplayName],
+    }
+}
+
 // ---------------------------------------------------------------------------------------------
 // operations
 
@@ -272,10 +281,13 @@ fn apply(rs: &mut Ruleset, op: &Op) -> Option<String> {
         Op::Insert { kind, id, tag, after, before } => {
             let acts = actions(*tag);
             let rule = match kind {
-                Kind::O => NewPushRule::Override(NewConditionalPushRule::new(id.clone(), vec![], acts)),
-                Kind::U => NewPushRule::Underride(NewConditionalPushRule::new(id.clone(), vec![], acts)),
+                // the payload of a rule (conditions, pattern) varies with the tag, so that re-inserting an
+                // id replaces a rule that differs from the old one in more than its actions: identity of a
+                // rule in its list is its id alone
+                Kind::O => NewPushRule::Override(NewConditionalPushRule::new(id.clone(), conds(*tag), acts)),
+                Kind::U => NewPushRule::Underride(NewConditionalPushRule::new(id.clone(), conds(*tag), acts)),
                 Kind::C => {
-                    NewPushRule::Content(NewPatternedPushRule::new(id.clone(), "pat".into(), acts))
+                    NewPushRule::Content(NewPatternedPushRule::new(id.clone(), format!("pat{tag}"), acts))
                 }
                 Kind::R => NewPushRule::Room(NewSimplePushRule::new(
                     OwnedRoomId::try_from(id.as_str()).ok()?,
